@@ -192,7 +192,9 @@ class Checker:
         out = []
         old = W.CLASS_SALT
         try:
-            for salt in range(len(W.UNEXPECTED_CLASSES)):
+            n = len(W.UNEXPECTED_CLASSES)
+            start = sum(map(ord, dumps(case, sort_keys=True))) % n       # 8 consecutive classes per case, rotating over cases
+            for salt in [(start + i) % n for i in range(n if self.ctx.tier == "thorough" else 8)]:
                 W.CLASS_SALT = salt
                 ref = W.run_blocking(case)
                 for config, obs in (("generic-blocking", W.run_blocking(case, generic=True)),
@@ -1031,6 +1033,94 @@ def history_stream(ctx, prop):
     ctx.extra["history_runs"] = n
 
 
+# ---------------------------------------------------------------------------
+# named probes (fixed cases)
+
+def probe_many_root_fields(ctx, prop, kinds=("query", "mutation"), counts=(100, 400, 1000)):
+    """
+    NAMED PROBE (scale limit, like C01's P1): `{ a1: m a2: m ... aN: m }` with synchronous resolvers must be answered alike
+    by BlockingExecutor and by the generic Executor. Finding E4: `execute_fields_serially._next` recursed per field.
+    """
+    import sys
+    from py_gql import build_schema, process_graphql_query
+    from py_gql.execution import BlockingExecutor, Executor
+    from py_gql.execution.runtime import BlockingRuntime
+    schema = build_schema("type Query { m: Int } type Mutation { m: Int }")
+    schema.register_resolver("Query", "m", lambda *a, **k: 1)
+    schema.register_resolver("Mutation", "m", lambda *a, **k: 1)
+
+    def one(kind, n, cls):
+        q = kind + " { " + " ".join("a%d: m" % i for i in range(n)) + " }"
+        try:
+            r = process_graphql_query(schema, q, runtime=BlockingRuntime(), executor_cls=cls)
+            return ["ok", len(r.data or {}), list(r.data or {})[:1] + list(r.data or {})[-1:], len(r.errors)]
+        except RecursionError:
+            return ["RecursionError"]
+        except Exception as err:  # noqa
+            return ["failed", type(err).__name__]
+
+    for kind in kinds:
+        first_bad = None
+        for n in counts:
+            ref, got = one(kind, n, BlockingExecutor), one(kind, n, Executor)
+            ctx.count()
+            ctx.stat("probe:%d-root-fields:%s:%s" % (n, kind, got[0]))
+            if got != ref and first_bad is None:
+                first_bad = (n, ref, got)
+        if first_bad:
+            n, ref, got = first_bad
+            ctx.fail("%s:scale:%s-root-fields:%s" % (prop.lower(), kind, got[0]),
+                     "%s with %d aliased root fields: generic Executor gives %s, BlockingExecutor gives %s (recursion limit %d)"
+                     % (kind, n, got, ref, sys.getrecursionlimit()),
+                     {"probe": "many-root-fields", "kind": kind, "count": n, "counts_tried": list(counts)})
+
+
+def probe_resolver_raises_execution_error(ctx):
+    """NAMED PROBE (finding E5): a resolver raising the library's `ExecutionError` must be reported alike by all configurations."""
+    import asyncio
+    from py_gql import build_schema, process_graphql_query
+    from py_gql.exc import ExecutionError
+    from py_gql.execution import BlockingExecutor, Executor
+    from py_gql.execution.runtime import AsyncIORuntime, BlockingRuntime, ThreadPoolRuntime
+    schema = build_schema("type Query { n: Int m: Int }")
+
+    def boom(*a, **k):
+        raise ExecutionError("raised by a resolver")
+    schema.register_resolver("Query", "m", boom)
+    schema.register_resolver("Query", "n", lambda *a, **k: 1)
+
+    def canon(fn):
+        try:
+            r = fn()
+            return ["response", dumps(r.data), [type(e).__name__ for e in r.errors]]
+        except Exception as err:  # noqa
+            return ["raises", type(err).__name__]
+
+    def on_loop():
+        loop = W.private_loop()
+
+        async def main():
+            return await process_graphql_query(schema, "{ n m }", runtime=AsyncIORuntime(), executor_cls=Executor)
+        return loop.run_until_complete(asyncio.wait_for(main(), 20))
+
+    def on_pool():
+        rt = ThreadPoolRuntime(max_workers=2)
+        try:
+            return process_graphql_query(schema, "{ n m }", runtime=rt, executor_cls=Executor).result(timeout=20)
+        finally:
+            rt._inner.shutdown(wait=False)
+
+    ref = canon(lambda: process_graphql_query(schema, "{ n m }", runtime=BlockingRuntime(), executor_cls=BlockingExecutor))
+    for cfg, fn in (("generic-blocking", lambda: process_graphql_query(schema, "{ n m }", runtime=BlockingRuntime(), executor_cls=Executor)),
+                    ("asyncio-graphql()", on_loop), ("threadpool-real-w2", on_pool)):
+        got = canon(fn)
+        ctx.count()
+        if got != ref:
+            ctx.fail("c08:resolver-raises-ExecutionError:%s" % cfg,
+                     "a resolver raising ExecutionError: %s gives %s, BlockingExecutor gives %s" % (cfg, got, ref),
+                     {"probe": "resolver-raises-ExecutionError", "config": cfg, "blocking": ref, "got": got})
+
+
 def run(ctx):
     W.quiet()
     chk = Checker(ctx, "C08")
@@ -1040,6 +1130,8 @@ def run(ctx):
         args_stream(ctx, 12 if ctx.tier == "quick" else 120)
         runtime_api_stream(ctx)
         history_stream(ctx, "C08")
+        probe_many_root_fields(ctx, "C08", kinds=("query",))
+        probe_resolver_raises_execution_error(ctx)
     finally:
         W.close_private_loop()
     ctx.extra["configurations"] = list(CONFIGS)
@@ -1049,6 +1141,16 @@ def run(ctx):
 def replay(ctx, data):
     W.quiet()
     inp = data.get("input", {})
+    if inp.get("probe"):
+        before = len(ctx.found)
+        try:
+            if inp["probe"] == "many-root-fields":
+                probe_many_root_fields(ctx, "C08", kinds=(inp.get("kind", "query"),))
+            else:
+                probe_resolver_raises_execution_error(ctx)
+        finally:
+            W.close_private_loop()
+        return len(ctx.found) == before
     if inp.get("stream") == "history":
         before = len(ctx.found)
         try:
